@@ -105,6 +105,9 @@ def run(ctx):
         cfg = {"layout": lay, "repo_spec": "1.1", "obj_spec": "1.1", "alg": "sha512", "cdir": "content", "pad": 0,
                "ext_staging": True, "fresh_handle": True}
         scripted.append((cfg, hist.mv_guard_scenario(cfg)))
+    # new objects committed at roots inside / equal to another object's root, beside the storage root, with dot
+    # segments: the other object's committed data must not change whatever the answer is
+    scripted += hist.hostile_root_scenarios()
     return histcheck.run_history_check(
         ctx, proof, hook, n, length, scripted=scripted,
         rule="8 scripted histories (purge / reset-all of every never-existing id related to committed objects under layouts 0002/0006/0007/0004) + adaptive random histories over 3 objects alive at a time, default and external staging, 8 layout variants; snapshots and the full read API (listing, every file, log, diffs, validate) compared around every step; distinct = distinct (operation, arguments, result class)")
